@@ -89,7 +89,10 @@ def _segments_from_layout(rec) -> List[Tuple[int, int, List[int]]]:
     pos = 0
     for lay in rec["layout"]:
         nd = lay["ndata"]
-        segs.append((lay["start"], lay["len"], rec["img"][pos:pos + nd]))
+        data = list(rec["img"][pos:pos + nd])
+        if nd % 2 and nd < lay["len"]:
+            data.append(0)          # the file format stores whole ops: an explicit zero word equals the zero tail it replaces
+        segs.append((lay["start"], lay["len"], data))
         pos += nd
     return segs
 
